@@ -78,6 +78,9 @@ pub fn range_values(l: u64, rng: &mut Rng) -> Vec<Option<Vec<u8>>> {
     v.push(s(format!("bytes={}-{}", lm1.saturating_sub(2), lm1)));
     v.push(s("bytes=0-0,-1".into()));
     v.push(s("bytes=0-1, 3-4".into()));
+    // three and four ranges that touch: one chunk of the entity may span two seams
+    v.push(s(format!("bytes=0-{},{}-{},{}-{}", mid / 4, mid / 4 + 1, mid / 4 + 3, mid / 4 + 4, mid)));
+    v.push(s("bytes=0-1,2-3,4-4,5-9".into()));
     v.push(s(format!("bytes=0-5,{}-{}", l.saturating_sub(6), lm1)));
     v.push(s(format!("bytes={}-{},0-0,{}-", mid, mid.saturating_add(1), lm1)));
     v.push(s(format!("bytes={}-,{}-", l, l.saturating_add(5))));
